@@ -7,7 +7,7 @@
   The code modelled is the tree with `fixes/D11_total_sort_key.patch` (the set of hits is sorted
   by the total key `(query_start, query_end, hit_id, evalue, bitscore)`) and
   `fixes/D22_merge_spans.patch` (`merge` takes `min` start / `max` end) and
-  `fixes/D27_keep_separate_domains.patch` (`_merge_domain_list` keeps a run of fragments when the
+  `fixes/D32_keep_separate_domains.patch` (`_merge_domain_list` keeps a run of fragments when the
   next fragment of the profile is too far away, instead of forgetting it) applied.
 
   Representation (exact, order-isomorphic; see `harness/props/c13.py`):
